@@ -159,6 +159,13 @@ Proof.
       try (right; discriminate); try (left; discriminate).
 Qed.
 
+Lemma enq_core_events w j :
+  snd (enq_core w j) = [] \/ exists a b d, snd (enq_core w j) = [EStart a b d].
+Proof.
+  unfold enq_core, dispatch_job. destruct (w_cur w); [left; reflexivity|].
+  destruct (w_q w); cbn [set_q w_alive]; destruct (w_alive w); cbn [snd]; eauto.
+Qed.
+
 (* ------------------------------------------------------------------ *)
 (* C15_queue_bound                                                      *)
 
@@ -394,9 +401,9 @@ Qed.
 Lemma worker_complete_ok w : wq_ok w -> wq_ok (fst (worker_complete w)).
 Proof.
   intros Hw Hn. specialize (Hw Hn). unfold worker_complete, wbound in *.
-  destruct (w_q w) as [|j r] eqn:E; unfold dispatch_job; cbn [set_q set_cur w_alive].
-  - cbn [fst w_q w_alive]. rewrite E. exact Hw.
-  - rewrite len_cons in Hw. destruct (w_alive w); cbn [fst w_q w_alive]; rewrite ?len_cons; lia.
+  destruct (w_q w) as [|j r] eqn:E; unfold dispatch_job; cbn [set_q set_cur w_alive];
+    destruct (w_alive w) eqn:Ea; cbn [fst w_q w_alive set_q set_cur]; rewrite ?E, ?Ea;
+    rewrite ?len_cons in *; try exact Hw; lia.
 Qed.
 
 Lemma worker_finished_QI s i s' e : worker_finished c s i = (s', e) -> QI s -> QI s'.
@@ -425,10 +432,12 @@ Proof.
   unfold build. cbn [set_builds f_pool].
   intros H [H1 H2].
   pose proof (find_w_Forall _ _ _ _ H2 Ef) as Hw.
-  set (w0 := mkW (w_id w) None (w_q w) (w_drain w) (assoc i (f_builds s) + 1)) in *.
+  set (w0 := mkW (w_id w) None (w_q w) (w_drain w) (assoc i (f_builds s) + 1) true) in *.
   assert (Hw1 : wq_ok (fst (match w_q w0 with j :: r => dispatch_job (set_q w0 r) j | [] => (w0, []) end))).
-  { intros Hn. specialize (Hw Hn). cbn [w_q w0]. destruct (w_q w) as [|j r]; cbn [dispatch_job set_q fst w_q]; [exact Hw|].
-    rewrite len_cons in Hw. lia. }
+  { intros Hn. specialize (Hw Hn). pose proof L_le_dead as Hld. unfold wbound, dead_bound in *.
+    unfold w0. cbn [w_q]. destruct (w_q w) as [|j r]; unfold dispatch_job; cbn [set_q fst w_q w_alive].
+    - unfold len. cbn [length]. lia.
+    - rewrite len_cons in Hw. destruct (w_alive w), m; lia. }
   destruct (match w_q w0 with j :: r => dispatch_job (set_q w0 r) j | [] => (w0, []) end) as [w1 e1].
   cbn [fst] in Hw1. unfold try_route_next in H.
   match type of H with context [try_route c ?f ?st (Some i)] => destruct (try_route c f st (Some i)) as [s2 e'] eqn:Et end.
@@ -537,7 +546,16 @@ Qed.
 
 Lemma step_QI s o : QI s -> QI (fst (step c s o)).
 Proof.
-  intros HQ. destruct o as [j|i| |i|i|n| |dt| |]; cbn [step].
+  intros HQ. destruct o as [j|i| |i|i|n| |dt| | |i|i]; cbn [step].
+  11:{ destruct (f_stopped s); [exact HQ|]. destruct (find_w (f_pool s) i) as [w|] eqn:Ef; [|exact HQ].
+       destruct (w_alive w && match w_cur w with None => true | Some _ => false end) eqn:Ec; [|exact HQ].
+       cbn [fst]. destruct HQ as [H1 H2]. split; [exact H1|]. cbn [set_pool f_pool].
+       apply Forall_upd_w; [exact H2|]. pose proof (find_w_Forall _ _ _ _ H2 Ef) as Hw.
+       intros Hn. specialize (Hw Hn). apply andb_true_iff in Ec. destruct Ec as [Ea _].
+       unfold wbound in *. cbn [set_alive w_q w_alive]. rewrite Ea in Hw. pose proof L_le_dead. lia. }
+  11:{ destruct (f_stopped s); [exact HQ|]. destruct (find_w (f_pool s) i) as [w|]; [|exact HQ].
+       destruct (w_alive w); [exact HQ|]. destruct (worker_died c s i) as [s' e] eqn:E. cbn [fst].
+       eapply worker_died_QI; eassumption. }
   - destruct (f_stopped s); [exact HQ|].
     destruct (with_after (dispatch c s j)) as [s' e] eqn:E. cbn [fst].
     eapply with_after_QI; [exact E|]. destruct (dispatch c s j) as [s0 e0] eqn:Ed. cbn [fst].
@@ -577,16 +595,19 @@ Proof. induction ops as [|o r IH]; intros s HQ; cbn [state_after]; [exact HQ|]. 
 End QueueBound.
 
 (* For every configuration with a limit L (any L, both modes, every router and queue kind) and
-   EVERY label sequence (dispatch bursts, completions, failures, kills, resizes, drain, time),
-   in the state reached: the factory queue holds at most L discardable jobs, and when the
-   router queues at the workers every worker's own queue holds at most L jobs. *)
+   EVERY label sequence (dispatch bursts, completions, failures, kills, stopping workers, resizes,
+   drain, time), in the state reached: the factory queue holds at most L discardable jobs, and
+   when the router queues at the workers every worker's own queue holds at most L jobs -- except
+   that the queue of a worker whose actor is stopping (no dispatch possible until its supervision
+   event is handled) may hold max(L, 1) jobs in Newest mode, i.e. one job when L = 0. *)
 Theorem queue_bound c L m ops :
   c_discard c = Some (L, m) ->
   let s := state_after c (fst (init c 0)) ops in
   len (filter (discardable c) (f_q s)) <= L
-  /\ (factory_queueing c = false -> forall w, In w (f_pool s) -> len (w_q w) <= L).
+  /\ (factory_queueing c = false -> forall w, In w (f_pool s) ->
+      len (w_q w) <= (if w_alive w then L else match m with Oldest => L | Newest => N.max L 1 end)).
 Proof.
-  intros Hd s. assert (HQ : QI c L s).
+  intros Hd s. assert (HQ : QI c L m s).
   { unfold s. eapply state_after_QI; [exact Hd|]. first [apply init_QI | eapply init_QI; exact Hd]. }
   destruct HQ as [H1 H2].
   split; [exact H1|]. intros Hn w Hw. rewrite Forall_forall in H2. apply (H2 w Hw Hn).
@@ -632,46 +653,60 @@ Proof.
   destruct (w_id w =? i); [reflexivity|exact IH].
 Qed.
 
-(* same slots, same draining flags, busy workers stay busy *)
+(* same slots, same draining / alive flags, busy living workers stay busy *)
+Definition wle (w w' : worker) : Prop :=
+  w_drain w' = w_drain w /\ w_alive w' = w_alive w
+  /\ (w_alive w = true -> w_working w = true -> w_working w' = true).
+
+Lemma wle_refl w : wle w w.
+Proof. repeat split. exact (fun _ x => x). Qed.
+
+Lemma wle_trans a b d : wle a b -> wle b d -> wle a d.
+Proof.
+  intros (A1 & A2 & A3) (B1 & B2 & B3). repeat split; try congruence.
+  intros Ha Hw. apply B3; [congruence|]. apply A3; assumption.
+Qed.
+
 Definition ple (p p' : list worker) : Prop :=
   forall i, match find_w p i, find_w p' i with
-            | Some w, Some w' => w_drain w' = w_drain w /\ (w_working w = true -> w_working w' = true)
+            | Some w, Some w' => wle w w'
             | None, None => True
             | _, _ => False
             end.
 
 Lemma ple_refl p : ple p p.
-Proof. intros i. destruct (find_w p i); [split; [reflexivity|exact (fun x => x)]|exact I]. Qed.
+Proof. intros i. destruct (find_w p i); [apply wle_refl|exact I]. Qed.
 
 Lemma ple_trans p q r : ple p q -> ple q r -> ple p r.
 Proof.
   intros H1 H2 i. specialize (H1 i). specialize (H2 i).
   destruct (find_w p i), (find_w q i), (find_w r i); try contradiction; try exact I.
-  destruct H1 as [A B], H2 as [C D]. split; [congruence|auto].
+  eapply wle_trans; eassumption.
 Qed.
 
 Lemma ple_upd p i w x :
-  find_w p i = Some w -> w_id x = i -> w_drain x = w_drain w ->
-  (w_working w = true -> w_working x = true) -> ple p (upd_w p x).
+  find_w p i = Some w -> w_id x = i -> wle w x -> ple p (upd_w p x).
 Proof.
-  intros Hf Hid Hd Hw j. rewrite find_upd_w. rewrite Hid.
+  intros Hf Hid Hw j. rewrite find_upd_w. rewrite Hid.
   destruct (N.eqb_spec i j) as [E|E].
-  - subst j. rewrite Hf. split; assumption.
-  - destruct (find_w p j); [split; [reflexivity|exact (fun y => y)]|exact I].
+  - subst j. rewrite Hf. exact Hw.
+  - destruct (find_w p j); [apply wle_refl|exact I].
 Qed.
 
 Lemma enqueue_job_shape c w j :
-  let w' := fst (enqueue_job c w j) in
-  w_id w' = w_id w /\ w_drain w' = w_drain w /\ (w_working w = true -> w_working w' = true).
+  let w' := fst (enqueue_job c w j) in w_id w' = w_id w /\ wle w w'.
 Proof.
-  cbn zeta. unfold enqueue_job.
+  cbn zeta. rewrite enqueue_job_unfold.
   destruct (match wsettings c with Some (l, Newest) => negb (w_available w) && (l <=? len (w_q w)) | _ => false end);
-    [cbn [fst]; repeat split; exact (fun x => x)|].
-  destruct (w_cur w) as [cj|] eqn:Ec.
-  - destruct (wsettings c) as [[l [|]]|]; cbn [fst set_q w_id w_drain]; repeat split;
-      intros _; unfold w_working, w_available; cbn [w_cur set_q]; rewrite Ec; reflexivity.
-  - destruct (w_q w) as [|older rest]; cbn [dispatch_job set_q fst w_id w_drain]; repeat split;
-      intros _; reflexivity.
+    [cbn [fst]; split; [reflexivity|apply wle_refl]|].
+  pose proof (enq_core_facts w j) as (Hid & Hdr & Hal & Hcur & _). destruct (enq_core w j) as [w1 e1]. cbn [fst] in *.
+  assert (Hw : forall q, w_alive w = true -> w_working (set_q w1 q) = true).
+  { intros q Ha. specialize (Hcur Ha). unfold w_working, w_available. cbn [set_q w_cur].
+    destruct (w_cur w1); [reflexivity|contradiction]. }
+  assert (Hw1 : w_alive w = true -> w_working w1 = true).
+  { intros Ha. specialize (Hcur Ha). unfold w_working, w_available. destruct (w_cur w1); [reflexivity|contradiction]. }
+  destruct (wsettings c) as [[l [|]]|]; cbn [fst set_q w_id w_drain w_alive];
+    (split; [exact Hid|]); repeat split; try assumption; intros Ha _; auto.
 Qed.
 
 Definition frame (s s' : fstate) : Prop :=
@@ -693,7 +728,7 @@ Proof.
   destruct tgt as [i|]; [|intros H; inversion H; subst; fr].
   cbn [set_rs f_pool]. destruct (find_w (f_pool s) i) as [w|] eqn:Ef;
     [|intros H; inversion H; subst; fr].
-  pose proof (enqueue_job_shape c w j) as (A & B & C). destruct (enqueue_job c w j) as [w' ev]. cbn [fst] in *.
+  pose proof (enqueue_job_shape c w j) as (A & B). destruct (enqueue_job c w j) as [w' ev]. cbn [fst] in *.
   intros H; inversion H; subst. repeat split. cbn [set_pool set_rs f_pool].
   eapply ple_upd; try eassumption. rewrite A. eapply find_w_id; eassumption.
 Qed.
@@ -765,7 +800,8 @@ Proof. destruct b; [apply route_queued_frame|apply route_backlog_frame]. Qed.
 (* the pool is exactly what the last resize asked for, up to busy workers being retired *)
 Definition shape_ok (p : list worker) (n : N) : Prop :=
   (forall i, i < n -> exists w, find_w p i = Some w /\ w_drain w = false)
-  /\ (forall i w, n <= i -> find_w p i = Some w -> w_drain w = true /\ w_working w = true).
+  /\ (forall i w, n <= i -> find_w p i = Some w ->
+      w_drain w = true /\ (w_alive w = true -> w_working w = true)).
 
 Definition RI (s : fstate) : Prop := f_stopped s = true \/ shape_ok (f_pool s) (f_size s).
 
@@ -773,9 +809,10 @@ Lemma shape_ple p p' n : shape_ok p n -> ple p p' -> shape_ok p' n.
 Proof.
   intros [A B] H. split.
   - intros i Hi. destruct (A i Hi) as (w & Hf & Hd). specialize (H i). rewrite Hf in H.
-    destruct (find_w p' i) as [w'|]; [|contradiction]. exists w'. split; [reflexivity|]. destruct H. congruence.
+    destruct (find_w p' i) as [w'|]; [|contradiction]. exists w'. split; [reflexivity|]. destruct H as (H1 & _). congruence.
   - intros i w' Hi Hf. specialize (H i). rewrite Hf in H. destruct (find_w p i) as [w|] eqn:E; [|contradiction].
-    destruct (B i w Hi E) as [B1 B2]. destruct H as [H1 H2]. split; [congruence|auto].
+    destruct (B i w Hi E) as [B1 B2]. destruct H as (H1 & H2 & H3). split; [congruence|].
+    intros Ha. apply H3; [congruence|]. apply B2. congruence.
 Qed.
 
 Lemma RI_frame s s' : RI s -> frame s s' -> RI s'.
@@ -785,7 +822,10 @@ Qed.
 
 Lemma worker_complete_shape w :
   w_id (fst (worker_complete w)) = w_id w /\ w_drain (fst (worker_complete w)) = w_drain w.
-Proof. unfold worker_complete. destruct (w_q w); cbn; split; reflexivity. Qed.
+Proof.
+  unfold worker_complete, dispatch_job. destruct (w_q w); cbn [set_q set_cur w_alive];
+    [|destruct (w_alive w)]; cbn; split; reflexivity.
+Qed.
 
 Lemma shape_upd_nondraining p n i w x :
   shape_ok p n -> find_w p i = Some w -> w_id x = i -> w_drain x = w_drain w -> w_drain w = false ->
@@ -827,7 +867,7 @@ Proof.
     + repeat split; [right|exact Hns]. cbn [set_pool f_pool f_size]. destruct Hs as [A B]. split.
       * intros k Hk. rewrite find_upd_w, Cid. destruct (N.eqb_spec (w_id w) k); [lia|]. apply A. exact Hk.
       * intros k y Hk. rewrite find_upd_w, Cid. destruct (N.eqb_spec (w_id w) k) as [E|E].
-        -- subst k. rewrite Ef. intros Hy. inversion Hy; subst. split; assumption.
+        -- subst k. rewrite Ef. intros Hy. inversion Hy; subst. split; [assumption|intros _; assumption].
         -- apply B. exact Hk.
     + repeat split; [right|exact Hns]. cbn [set_pool f_pool f_size]. destruct Hs as [A B]. split.
       * intros k Hk. rewrite find_remove_w. destruct (N.eqb_spec (w_id w) k); [lia|].
@@ -851,7 +891,7 @@ Proof.
   destruct Hs as [A B]. split.
   - intros k Hk. rewrite find_upd_w, Hid. destruct (N.eqb_spec i k); [lia|]. apply A. exact Hk.
   - intros k y Hk. rewrite find_upd_w, Hid. destruct (N.eqb_spec i k) as [E|E].
-    + subst k. rewrite Hf. intros Hy; inversion Hy; subst. split; assumption.
+    + subst k. rewrite Hf. intros Hy; inversion Hy; subst. split; [assumption|intros _; assumption].
     + apply B. exact Hk.
 Qed.
 
@@ -867,7 +907,7 @@ Proof.
     + intros H; inversion H; subst. cbn [set_pool set_rs f_size f_stopped f_pool].
       repeat split; [right|exact Hns]. apply shape_remove_ge; [exact Hs|].
       eapply shape_draining_ge; eassumption.
-    + unfold build. cbn [set_builds f_pool w_q dispatch_job set_q].
+    + unfold build. cbn [set_builds f_pool w_q dispatch_job set_q w_alive].
       unfold try_route_next.
       match goal with |- context [try_route c ?f ?st (Some i)] => destruct (try_route c f st (Some i)) as [s2 e'] eqn:Et end.
       intros H; inversion H; subst. apply try_route_frame in Et.
@@ -876,10 +916,10 @@ Proof.
       repeat split; [|exact F1|congruence]. right. rewrite F1. eapply shape_ple; [|exact F4].
       eapply shape_upd_busy_draining; [exact Hs|exact Ef|reflexivity|exact Edr|reflexivity|reflexivity].
   - unfold build. cbn [set_builds f_pool w_q].
-    set (w0 := mkW (w_id w) None (w_q w) false (assoc i (f_builds s) + 1)).
+    set (w0 := mkW (w_id w) None (w_q w) false (assoc i (f_builds s) + 1) true).
     assert (Hw1 : forall w1 e1, (match w_q w with j :: r => dispatch_job (set_q w0 r) j | [] => (w0, []) end) = (w1, e1) ->
                   w_id w1 = w_id w /\ w_drain w1 = false).
-    { intros w1 e1. destruct (w_q w); cbn [dispatch_job set_q]; intros E; inversion E; subst; split; reflexivity. }
+    { intros w1 e1. unfold w0. destruct (w_q w); cbn [dispatch_job set_q w_alive]; intros E; inversion E; subst; split; reflexivity. }
     destruct (match w_q w with j :: r => dispatch_job (set_q w0 r) j | [] => (w0, []) end) as [w1 e1] eqn:E1.
     destruct (Hw1 w1 e1 eq_refl) as [I1 D1]. unfold try_route_next.
     match goal with |- context [try_route c ?f ?st (Some i)] => destruct (try_route c f st (Some i)) as [s2 e'] eqn:Et end.
@@ -931,7 +971,8 @@ Qed.
 (* shrink: slots n..from-1 are retired or draining-and-busy, slots from..cur-1 still untouched *)
 Definition shape3 (p : list worker) (n from cur : N) : Prop :=
   (forall i, (i < n \/ (from <= i /\ i < cur)) -> exists w, find_w p i = Some w /\ w_drain w = false)
-  /\ (forall i w, ((n <= i /\ i < from) \/ cur <= i) -> find_w p i = Some w -> w_drain w = true /\ w_working w = true).
+  /\ (forall i w, ((n <= i /\ i < from) \/ cur <= i) -> find_w p i = Some w ->
+      w_drain w = true /\ (w_alive w = true -> w_working w = true)).
 
 Lemma shrink_shape c n cur k : forall s from,
   from + N.of_nat k = cur -> n <= from ->
@@ -951,7 +992,7 @@ Proof.
       * intros i y Hi. rewrite find_upd_w. cbn [set_drain w_id]. rewrite Hid.
         destruct (N.eqb_spec from i) as [E|E].
         -- subst i. rewrite Ef. intros Hy; inversion Hy; subst. cbn [set_drain w_drain]. split; [reflexivity|].
-           unfold w_working, w_available in *. cbn [set_drain w_cur w_q]. exact Ew.
+           intros _. unfold w_working, w_available in *. cbn [set_drain w_cur w_q]. exact Ew.
         -- apply B. lia.
     + split; [exact A1|split; [rewrite A2; reflexivity|rewrite A3; reflexivity]].
   - match goal with |- context [shrink c ?st (from + 1) k] => destruct (IH st (from + 1)) as (A1 & A2 & A3); [lia|lia| |] end.
@@ -1037,7 +1078,25 @@ Lemma step_RI c s o : RI s ->
   let s' := fst (step c s o) in
   RI s' /\ (f_stopped s' = false -> f_stopped s = false /\ f_size s' = size_after o (f_size s)).
 Proof.
-  intros HR. cbn zeta. destruct o as [j|i| |i|i|n| |dt| |]; cbn [step size_after].
+  intros HR. cbn zeta. destruct o as [j|i| |i|i|n| |dt| | |i|i]; cbn [step size_after].
+  11:{ destruct (f_stopped s) eqn:Hst; [cbn [fst]; split; [exact HR|congruence]|].
+       destruct (find_w (f_pool s) i) as [w|] eqn:Ef; [|cbn [fst]; split; [exact HR|auto]].
+       destruct (w_alive w && match w_cur w with None => true | Some _ => false end); [|cbn [fst]; split; [exact HR|auto]].
+       cbn [fst set_pool f_stopped f_size]. split; [|auto]. destruct HR as [HR|[A B]]; [congruence|]. right.
+       unfold shape_ok. cbn [set_pool f_pool f_size]. pose proof (find_w_id _ _ _ Ef) as Hid. split.
+       - intros k Hk. rewrite find_upd_w. cbn [set_alive w_id]. rewrite Hid. destruct (N.eqb_spec i k) as [E|E].
+         + subst k. rewrite Ef. destruct (A i Hk) as (w' & Hf' & Hd'). exists (set_alive w false). split; [reflexivity|].
+           cbn [set_alive w_drain]. congruence.
+         + apply A. exact Hk.
+       - intros k y Hk. rewrite find_upd_w. cbn [set_alive w_id]. rewrite Hid. destruct (N.eqb_spec i k) as [E|E].
+         + subst k. rewrite Ef. intros Hy; inversion Hy as [Hy']. cbn [set_alive w_drain w_alive].
+           destruct (B i w Hk Ef) as [B1 _]. split; [exact B1|discriminate].
+         + apply B. exact Hk. }
+  11:{ destruct (f_stopped s) eqn:Hst; [cbn [fst]; split; [exact HR|congruence]|].
+       destruct (find_w (f_pool s) i) as [w|]; [|cbn [fst]; split; [exact HR|auto]].
+       destruct (w_alive w); [cbn [fst]; split; [exact HR|auto]|].
+       destruct (worker_died c s i) as [s' e] eqn:E. cbn [fst].
+       destruct (worker_died_RI _ _ _ _ _ E Hst HR) as (A1 & A2 & A3). split; [exact A1|auto]. }
   - destruct (f_stopped s) eqn:Hst; [cbn [fst]; split; [exact HR|congruence]|].
     destruct (with_after (dispatch c s j)) as [s' e] eqn:E. cbn [fst].
     destruct (dispatch c s j) as [s0 e0] eqn:Ed. pose proof (dispatch_frame _ _ _ _ _ Ed) as Fr.
@@ -1096,25 +1155,26 @@ Proof.
 Qed.
 
 (* For every configuration and EVERY label sequence (resizes interleaved with dispatches, busy
-   workers, completions, failures, kills, draining), if in the state reached the factory is alive
-   and no worker is busy, then the pool is exactly the slots 0..n-1 -- none of them draining --
+   workers, completions, failures, kills, stopping workers, draining), if in the state reached the
+   factory is alive, no worker is busy and no worker actor is stopping with its supervision event
+   still pending, then the pool is exactly the slots 0..n-1 -- none of them draining --
    where n is the last non-zero requested size (requests of 0 ignored, capped at 1_000_000), or
    the initial size if there was none. *)
 Theorem resize_converges c ops :
   let s := state_after c (fst (init c 0)) ops in
-  f_stopped s = false -> all_available (f_pool s) = true ->
+  f_stopped s = false -> all_available (f_pool s) = true -> forallb w_alive (f_pool s) = true ->
   f_size s = target_after (c_n0 c) ops
   /\ (forall i, (exists w, find_w (f_pool s) i = Some w) <-> i < f_size s)
   /\ (forall i w, find_w (f_pool s) i = Some w -> w_drain w = false).
 Proof.
-  intros s Hns Hidle. destruct (init_RI c 0) as (I1 & I2 & I3).
+  intros s Hns Hidle Halive. destruct (init_RI c 0) as (I1 & I2 & I3).
   destruct (state_after_RI c ops _ I1) as [HR Hsz]. fold s in HR, Hsz.
   destruct (Hsz Hns) as [_ Hsize]. rewrite I3 in Hsize. split; [exact Hsize|].
   destruct HR as [HR|[A B]]; [congruence|].
   assert (Hno : forall i w, f_size s <= i -> find_w (f_pool s) i = Some w -> False).
   { intros i w Hi Hf. destruct (B i w Hi Hf) as [_ Hw]. apply find_w_In in Hf. destruct Hf as [Hin _].
-    unfold all_available in Hidle. rewrite forallb_forall in Hidle. specialize (Hidle w Hin).
-    unfold w_working in Hw. rewrite Hidle in Hw. discriminate. }
+    unfold all_available in Hidle. rewrite forallb_forall in Hidle, Halive. specialize (Hidle w Hin).
+    specialize (Hw (Halive w Hin)). unfold w_working in Hw. rewrite Hidle in Hw. discriminate. }
   split.
   - intros i. split.
     + intros [w Hf]. destruct (N.lt_ge_cases i (f_size s)) as [Hlt|Hge]; [exact Hlt|]. exfalso. eapply Hno; eassumption.
@@ -1166,9 +1226,9 @@ Proof.
   destruct (w_drain w && match w_q w with [] => true | _ => false end); [intros H; inversion H; reflexivity|].
   unfold build, try_route_next. cbn [set_builds f_pool].
   match goal with |- context [dispatch_job ?a ?b] => idtac | _ => idtac end.
-  destruct (match w_q (mkW (w_id w) None (w_q w) (w_drain w) (assoc i (f_builds s) + 1)) with
-            | j :: r => dispatch_job (set_q (mkW (w_id w) None (w_q w) (w_drain w) (assoc i (f_builds s) + 1)) r) j
-            | [] => (mkW (w_id w) None (w_q w) (w_drain w) (assoc i (f_builds s) + 1), [])
+  destruct (match w_q (mkW (w_id w) None (w_q w) (w_drain w) (assoc i (f_builds s) + 1) true) with
+            | j :: r => dispatch_job (set_q (mkW (w_id w) None (w_q w) (w_drain w) (assoc i (f_builds s) + 1) true) r) j
+            | [] => (mkW (w_id w) None (w_q w) (w_drain w) (assoc i (f_builds s) + 1) true, [])
             end) as [w1 e1].
   match goal with |- context [try_route c ?f ?st (Some i)] => destruct (try_route c f st (Some i)) as [s2 e'] eqn:Et end.
   intros H; inversion H; subst. apply try_route_frame in Et. destruct Et as (_ & F2 & _).
@@ -1218,7 +1278,12 @@ Qed.
 
 Lemma step_closing c s o : closing s -> closing (fst (step c s o)).
 Proof.
-  intros Hc. destruct o as [j|i| |i|i|n| |dt| |]; cbn [step].
+  intros Hc. destruct o as [j|i| |i|i|n| |dt| | |i|i]; cbn [step].
+  11:{ destruct (f_stopped s) eqn:Hst; [exact Hc|]. destruct (find_w (f_pool s) i) as [w|]; [|exact Hc].
+       destruct (w_alive w && match w_cur w with None => true | Some _ => false end); exact Hc. }
+  11:{ destruct (f_stopped s) eqn:Hst; [exact Hc|]. destruct (find_w (f_pool s) i) as [w|]; [|exact Hc].
+       destruct (w_alive w); [exact Hc|]. destruct (worker_died c s i) as [s' e] eqn:E. cbn [fst].
+       destruct Hc as [Hc|Hc]; [|congruence]. left. rewrite (worker_died_mode _ _ _ _ _ E). exact Hc. }
   - destruct (f_stopped s) eqn:Hst; [exact Hc|].
     destruct (with_after (dispatch c s j)) as [s' e] eqn:E. cbn [fst].
     eapply with_after_closing; [exact E|]. destruct (dispatch c s j) as [s0 e0] eqn:Ed. cbn [fst].
@@ -1251,7 +1316,7 @@ Definition is_accept_ev (e : ev) : bool := match e with EAccept _ => true | _ =>
 Lemma stop_events_no_accept s : existsb is_accept_ev (snd (stop_factory s)) = false.
 Proof.
   unfold stop_factory. cbn [snd]. rewrite existsb_app. cbn [existsb is_accept_ev orb].
-  induction (f_q s) as [|j r IH]; cbn [map existsb is_accept_ev orb]; [reflexivity|exact IH].
+  induction (f_q s ++ flat_map w_q (f_pool s)) as [|j r IH]; cbn [map existsb is_accept_ev orb]; [reflexivity|exact IH].
 Qed.
 
 (* once DrainRequests has been processed (or the factory is gone) a dispatch is never accepted:
@@ -1283,9 +1348,13 @@ Lemma drain_stop_spec s : f_drain s = Draining ->
 Proof.
   intros Hd. unfold after_message. rewrite Hd.
   destruct (all_available (f_pool s) && (len (f_q s) =? 0)) eqn:E; [|reflexivity].
-  apply andb_true_iff in E. destruct E as [_ E]. apply N.eqb_eq in E.
-  unfold stop_factory. cbn [fst snd f_stopped set_dstate f_q].
-  destruct (f_q s); [split; reflexivity|unfold len in E; cbn [length] in E; lia].
+  apply andb_true_iff in E. destruct E as [Ea E]. apply N.eqb_eq in E.
+  unfold stop_factory. cbn [fst snd f_stopped set_dstate f_q f_pool].
+  assert (Hq : flat_map w_q (f_pool s) = []).
+  { unfold all_available in Ea. induction (f_pool s) as [|w r IH]; [reflexivity|]. cbn [forallb flat_map] in *.
+    apply andb_true_iff in Ea. destruct Ea as [Ew Er]. rewrite (IH Er).
+    unfold w_available in Ew. destruct (w_cur w), (w_q w); try discriminate; reflexivity. }
+  rewrite Hq. destruct (f_q s); [split; reflexivity|unfold len in E; cbn [length] in E; lia].
 Qed.
 
 Lemma not_draining_never_stops s : f_drain s = NotDraining -> after_message s = (s, []).
@@ -1341,14 +1410,13 @@ Proof. unfold shed_events, hooks_of. induction l; cbn; auto. Qed.
 
 Lemma enqueue_job_quiet c w j : hooks_of (snd (enqueue_job c w j)) = [].
 Proof.
-  unfold enqueue_job.
+  rewrite enqueue_job_unfold.
   destruct (match wsettings c with Some (l, Newest) => negb (w_available w) && (l <=? len (w_q w)) | _ => false end);
     [reflexivity|].
-  destruct (w_cur w).
-  - destruct (wsettings c) as [[l [|]]|]; cbn [snd]; try reflexivity.
-    change (hooks_of ([EAccept (jid j)] ++ shed_events (firstn (length (w_q w ++ [j]) - N.to_nat l) (w_q w ++ [j]))) = []).
-    rewrite hooks_app, hooks_shed. reflexivity.
-  - destruct (w_q w); reflexivity.
+  pose proof (enq_core_events w j) as He. destruct (enq_core w j) as [w1 e1]. cbn [snd] in He.
+  assert (H1 : hooks_of e1 = []) by (destruct He as [->|(a & b & d & ->)]; reflexivity).
+  destruct (wsettings c) as [[l [|]]|]; cbn [snd];
+    change (EAccept (jid j) :: ?x) with ([EAccept (jid j)] ++ x); rewrite ?hooks_app, ?hooks_shed, ?H1; reflexivity.
 Qed.
 
 Lemma route_inner_quiet c s j hint s' r e : route_inner c s j hint = (s', r, e) -> hooks_of e = [].
@@ -1410,8 +1478,11 @@ Proof.
   - inversion H; subst. rewrite hooks_app, Er. reflexivity.
 Qed.
 
+Lemma dispatch_job_quiet w j : hooks_of (snd (dispatch_job w j)) = [].
+Proof. unfold dispatch_job. destruct (w_alive w); reflexivity. Qed.
+
 Lemma worker_complete_quiet w : hooks_of (snd (worker_complete w)) = [].
-Proof. unfold worker_complete. destruct (w_q w); reflexivity. Qed.
+Proof. unfold worker_complete. destruct (w_q w); [reflexivity|apply dispatch_job_quiet]. Qed.
 
 Lemma worker_finished_quiet c s i s' e : worker_finished c s i = (s', e) ->
   hooks_of e = [] /\ f_stopped s' = f_stopped s.
@@ -1437,7 +1508,7 @@ Proof.
   destruct (w_drain w && match w_q w with [] => true | _ => false end);
     [intros H; inversion H; subst; split; [exact Hl|reflexivity]|].
   unfold build, try_route_next. cbn [set_builds f_pool].
-  set (w0 := mkW (w_id w) None (w_q w) (w_drain w) (assoc i (f_builds s) + 1)).
+  set (w0 := mkW (w_id w) None (w_q w) (w_drain w) (assoc i (f_builds s) + 1) true).
   assert (H1 : hooks_of (snd (match w_q w0 with j :: r => dispatch_job (set_q w0 r) j | [] => (w0, []) end)) = [])
     by (destruct (w_q w0); reflexivity).
   destruct (match w_q w0 with j :: r => dispatch_job (set_q w0 r) j | [] => (w0, []) end) as [w1 e1]. cbn [snd] in H1.
@@ -1496,8 +1567,8 @@ Qed.
 Lemma stop_factory_hooks s : hooks_of (snd (stop_factory s)) = [HStopped] /\ f_stopped (fst (stop_factory s)) = true.
 Proof.
   unfold stop_factory. cbn [fst snd f_stopped]. split; [|reflexivity]. rewrite hooks_app.
-  replace (hooks_of (map (fun j => EDiscard (jid j) Shutdown) (f_q s))) with (@nil hook); [reflexivity|].
-  induction (f_q s); cbn; auto.
+  replace (hooks_of (map (fun j => EDiscard (jid j) Shutdown) (f_q s ++ flat_map w_q (f_pool s)))) with (@nil hook); [reflexivity|].
+  induction (f_q s ++ flat_map w_q (f_pool s)); cbn; auto.
 Qed.
 
 Definition stopped_hook (b : bool) : list hook := if b then [HStopped] else [].
@@ -1564,7 +1635,14 @@ Proof.
     { induction l' as [|[i' id'] r' IH']; cbn [finish_list]; [reflexivity|].
       unfold finish_w. rewrite Hst. rewrite IH'. reflexivity. }
     rewrite Hrest. split; [reflexivity|exact Hst].
-  - destruct o as [j|i| |i|i|n| |dt| |]; cbn [step drain_hook app]; try rewrite Hst.
+  - destruct o as [j|i| |i|i|n| |dt| | |i|i]; cbn [step drain_hook app]; try rewrite Hst.
+    11:{ destruct (find_w (f_pool s) i) as [w|]; [|cbn [fst snd]; rewrite Hst; reflexivity].
+         destruct (w_alive w && match w_cur w with None => true | Some _ => false end);
+           cbn [fst snd set_pool f_stopped]; rewrite Hst; reflexivity. }
+    11:{ destruct (find_w (f_pool s) i) as [w|]; [|cbn [fst snd]; rewrite Hst; reflexivity].
+         destruct (w_alive w); [cbn [fst snd]; rewrite Hst; reflexivity|].
+         destruct (worker_died c s i) as [s' e] eqn:E. destruct (worker_died_quiet _ _ _ _ _ E) as [Hq Hs].
+         cbn [fst snd]. rewrite Hq, Hs, Hst. reflexivity. }
     + destruct (dispatch c s j) as [s0 e0] eqn:Ed. pose proof (dispatch_quiet _ _ _ _ _ Ed) as Hq.
       destruct (dispatch_frame _ _ _ _ _ Ed) as (_ & _ & F3 & _).
       apply (with_after_hooks (s0, e0)); [cbn [fst]; congruence|exact Hq].
@@ -1664,7 +1742,13 @@ Qed.
 
 Lemma step_calm c s o : is_drain o = false -> calm s -> calm (fst (step c s o)).
 Proof.
-  intros Ho Hc. pose proof Hc as [H1 H2]. destruct o as [j|i| |i|i|n| |dt| |]; cbn [step]; try discriminate; try rewrite H2.
+  intros Ho Hc. pose proof Hc as [H1 H2]. destruct o as [j|i| |i|i|n| |dt| | |i|i]; cbn [step]; try discriminate; try rewrite H2.
+  10:{ destruct (find_w (f_pool s) i) as [w|]; [|exact Hc].
+       destruct (w_alive w && match w_cur w with None => true | Some _ => false end); [|exact Hc].
+       cbn [fst]. split; assumption. }
+  10:{ destruct (find_w (f_pool s) i) as [w|]; [|exact Hc]. destruct (w_alive w); [exact Hc|].
+       destruct (worker_died c s i) as [s' e] eqn:E. cbn [fst].
+       destruct (worker_died_quiet _ _ _ _ _ E) as [_ Hs]. split; [rewrite (worker_died_mode _ _ _ _ _ E); exact H1|congruence]. }
   - destruct (dispatch c s j) as [s0 e0] eqn:Ed. apply (with_after_calm (s0, e0)). cbn [fst].
     destruct (dispatch_frame _ _ _ _ _ Ed) as (_ & F2 & F3 & _). split; congruence.
   - apply finish_w_calm. exact Hc.
@@ -1745,14 +1829,13 @@ Qed.
 
 Lemma enqueue_job_sp c w j : answer_of (jid j) (sp (snd (enqueue_job c w j))).
 Proof.
-  unfold enqueue_job.
+  rewrite enqueue_job_unfold.
   destruct (match wsettings c with Some (l, Newest) => negb (w_available w) && (l <=? len (w_q w)) | _ => false end);
     [right; reflexivity|].
-  left. destruct (w_cur w).
-  - destruct (wsettings c) as [[l [|]]|]; cbn [snd]; try reflexivity.
-    change (sp ([EAccept (jid j)] ++ shed_events (firstn (length (w_q w ++ [j]) - N.to_nat l) (w_q w ++ [j]))) = [EAccept (jid j)]).
-    rewrite sp_app, sp_shed. reflexivity.
-  - destruct (w_q w); reflexivity.
+  left. pose proof (enq_core_events w j) as He. destruct (enq_core w j) as [w1 e1]. cbn [snd] in He.
+  assert (H1 : sp e1 = []) by (destruct He as [->|(a & b & d & ->)]; reflexivity).
+  destruct (wsettings c) as [[l [|]]|]; cbn [snd];
+    change (EAccept (jid j) :: ?x) with ([EAccept (jid j)] ++ x); rewrite ?sp_app, ?sp_shed, ?H1; reflexivity.
 Qed.
 
 Lemma route_inner_sp c s j hint s' r e : route_inner c s j hint = (s', r, e) ->
@@ -1828,7 +1911,9 @@ Qed.
 Lemma worker_finished_sp c s i s' e : worker_finished c s i = (s', e) -> sp e = [].
 Proof.
   unfold worker_finished. destruct (find_w (f_pool s) i) as [w|]; [|intros H; inversion H; reflexivity].
-  assert (Hq : sp (snd (worker_complete w)) = []) by (unfold worker_complete; destruct (w_q w); reflexivity).
+  assert (Hq : sp (snd (worker_complete w)) = [])
+    by (unfold worker_complete, dispatch_job; destruct (w_q w); [reflexivity|];
+        cbn [set_q set_cur w_alive]; destruct (w_alive w); reflexivity).
   destruct (worker_complete w) as [w' e1]. cbn [snd] in Hq. destruct (w_drain w').
   - destruct (w_working w'); intros H; inversion H; subst; exact Hq.
   - unfold try_route_next.
@@ -1844,7 +1929,7 @@ Proof.
   destruct (w_drain w && match w_q w with [] => true | _ => false end);
     [intros H; inversion H; subst; exact Hl|].
   unfold build, try_route_next. cbn [set_builds f_pool].
-  set (w0 := mkW (w_id w) None (w_q w) (w_drain w) (assoc i (f_builds s) + 1)).
+  set (w0 := mkW (w_id w) None (w_q w) (w_drain w) (assoc i (f_builds s) + 1) true).
   assert (H1 : sp (snd (match w_q w0 with j :: r => dispatch_job (set_q w0 r) j | [] => (w0, []) end)) = [])
     by (destruct (w_q w0); reflexivity).
   destruct (match w_q w0 with j :: r => dispatch_job (set_q w0 r) j | [] => (w0, []) end) as [w1 e1]. cbn [snd] in H1.
@@ -1885,8 +1970,8 @@ Definition stop_evs (b : bool) : list ev := if b then [EHook HStopped; EStopped]
 Lemma stop_factory_sp s : sp (snd (stop_factory s)) = stop_evs true.
 Proof.
   unfold stop_factory. cbn [snd]. rewrite sp_app.
-  replace (sp (map (fun j => EDiscard (jid j) Shutdown) (f_q s))) with (@nil ev); [reflexivity|].
-  induction (f_q s); cbn; auto.
+  replace (sp (map (fun j => EDiscard (jid j) Shutdown) (f_q s ++ flat_map w_q (f_pool s)))) with (@nil ev); [reflexivity|].
+  induction (f_q s ++ flat_map w_q (f_pool s)); cbn; auto.
 Qed.
 
 Lemma after_message_sp s : f_stopped s = false ->
@@ -1958,7 +2043,16 @@ Proof.
   split; intros Hst.
   - destruct o; cbn [step]; unfold finish_w; try rewrite Hst; try (split; [reflexivity|exact Hst]).
     rewrite (finish_list_stopped c _ s Hst). split; [reflexivity|exact Hst].
-  - destruct o as [j|i| |i|i|n| |dt| |]; cbn [step step_answer]; try rewrite Hst.
+  - destruct o as [j|i| |i|i|n| |dt| | |i|i]; cbn [step step_answer]; try rewrite Hst.
+    11:{ exists []. split; [reflexivity|].
+         destruct (find_w (f_pool s) i) as [w|]; [|cbn [fst snd]; rewrite Hst; reflexivity].
+         destruct (w_alive w && match w_cur w with None => true | Some _ => false end);
+           cbn [fst snd set_pool f_stopped]; rewrite Hst; reflexivity. }
+    11:{ exists []. split; [reflexivity|].
+         destruct (find_w (f_pool s) i) as [w|]; [|cbn [fst snd]; rewrite Hst; reflexivity].
+         destruct (w_alive w); [cbn [fst snd]; rewrite Hst; reflexivity|].
+         destruct (worker_died c s i) as [s' e] eqn:E. destruct (worker_died_quiet _ _ _ _ _ E) as [_ Hs].
+         cbn [fst snd]. rewrite (worker_died_sp _ _ _ _ _ E), Hs, Hst. reflexivity. }
     + destruct (dispatch c s j) as [s0 e0] eqn:Ed. pose proof (dispatch_sp _ _ _ _ _ Ed) as Hq.
       destruct (dispatch_frame _ _ _ _ _ Ed) as (_ & _ & F3 & _).
       exists (sp e0). split; [exact Hq|]. apply (with_after_sp (s0, e0)). cbn [fst]. congruence.
@@ -2149,7 +2243,7 @@ Proof.
   destruct (step c s o) as [s1 e1] eqn:Es. cbn [fst snd concat] in *. rewrite existsb_app.
   assert (Hnd' : NoDup (map jid (jobs_of r))).
   { unfold jobs_of in *. cbn [flat_map] in Hnd. rewrite map_app in Hnd. apply NoDup_app_r in Hnd. exact Hnd. }
-  destruct o as [j|i| |i|i|n| |dt| |]; cbn [after_drain_ids] in Hin;
+  destruct o as [j|i| |i|i|n| |dt| | |i|i]; cbn [after_drain_ids] in Hin;
     try (apply orb_false_iff; split;
          [destruct (existsb (is_accept id) e1) eqn:E; [destruct (Ha eq_refl) as (_ & j' & Hj & _); discriminate|reflexivity]
          |apply (IH s1 seen Hnd' (fun h => Hsc (Hcl h)) id Hin)]).
